@@ -217,9 +217,8 @@ def run(ctx):
 
     # in-process: which guard lines of the planner does this workload reach?
     conv = env.conv
-    watch = kit.LineWatch(ctx, [("conversions._plan_conversion", getattr(conv, "_plan_conversion", None)), ("conversions._replace_factors", getattr(conv, "_replace_factors", None)),
-                                ("conversions._reduce_dimension", getattr(conv, "_reduce_dimension", None)), ("conversions._inline_paths", getattr(conv, "_inline_paths", None)),
-                                ("conversions.convert", conv.convert), ("Quantity.__eq__", env.m.Quantity.__eq__), ("Quantity.__lt__", env.m.Quantity.__lt__)])
+    planner = kit.module_functions(conv, "conversions")
+    watch = kit.LineWatch(ctx, planner + [("Quantity.__eq__", env.m.Quantity.__eq__), ("Quantity.__lt__", env.m.Quantity.__lt__)])
     for name, d in FRESH:
         try:
             env.m.Unit.define(env.m.Dimension._by_name[d], name, name)
@@ -240,8 +239,7 @@ def run(ctx):
         ctx.count("in_process_cases")
     watch.close()
     guards = {}
-    for label, fn in (("conversions._plan_conversion", getattr(conv, "_plan_conversion", None)), ("conversions._replace_factors", getattr(conv, "_replace_factors", None)),
-                      ("conversions._reduce_dimension", getattr(conv, "_reduce_dimension", None)), ("conversions._inline_paths", getattr(conv, "_inline_paths", None))):
+    for label, fn in planner:
         if fn is None:
             continue
         fn = getattr(fn, "__wrapped__", fn)
